@@ -838,6 +838,33 @@ _notes = set()
 MIRROR = {'fmtk': 'irfmtk', 'fmtkf': 'irfmtkf', 'fmtq': 'irfmtq', 'fmtt': 'irfmtt', 'fmtc': 'irfmtc', 'fmtl': 'irfmtl'}
 
 
+def ambient_answer(case):
+    """One case of the ambient section (tools/kdv/ambient.py), answered in the helper process: the texts of the lines."""
+    k = case['kind']
+    if k == 'kevent':
+        return kevent_impl(case)
+    if k == 'trace':
+        return texts(trace_impl_lines(case['stream'], case['bits'], case['color']))     # escapes included
+    if k == 'callstack':
+        return cs_impl(case)
+    return log_impl(case)
+
+
+def ambient_cases(rng, tier):
+    k = 1 if tier == 'quick' else 6
+    bits = ['111111', '111011', '101111', '110111', '011111', '111101']
+    cases = []
+    for s in gen_event_streams(rng, 3 * k):
+        cases += [{'kind': 'kevent', 'bits': b, 'stream': s} for b in bits[:4]]
+    for s in gen_trace_streams(rng, 3 * k, EXIT_NAMES):
+        cases += [{'kind': 'trace', 'bits': b, 'stream': s, 'color': c} for b in bits[:4] for c in (False, True)]
+    for s in gen_callstacks(rng, 2 * k):
+        cases += [{'kind': 'callstack', 'bits': b, 'stream': s} for b in bits[:3]]
+    for s in gen_logs(rng, 3 * k):
+        cases += [{'kind': 'log', 'bits': '111111', 'stream': s, 'color': c} for c in (False, True)]
+    return cases
+
+
 def translation_tie(rep):
     """Are the methods translated from pykdebugparser.py the ones format_*_ir_eq_model are proved for?  Switches the mirror
     sections `*-ir` on: every section that drives fmtk / fmtq / fmtt / fmtc / fmtl is driven a second time through the
@@ -903,6 +930,8 @@ def correspondence(rep, rng, tier):
     _PL.section_e2e(rep, rng, tier, n=(120 if tier == 'quick' else 4000))
     from .. import scenhist
     scenhist.section(rep, rng, tier, 'C14')        # the names the tables hold are those of THIS stream's records
+    from .. import ambient
+    ambient.section(rep, rng, tier, 'C14', 'kdv.props.C14:ambient_answer', ambient_cases(rng, tier))
     k = 1 if tier == 'quick' else 20
     run_section(rep, 'format-primitives', gen_primitives(rng, tier), prim_line, prim_impl, prim_oracle,
                 nontrivial_fn=lambda c, g: g.startswith('ok'), kind_fn=lambda c, g: c[0], rule=RULES['format-primitives'])
@@ -974,6 +1003,13 @@ def replay(path):
     if r['replay'].get('section') == 'scenario-history':
         from .. import scenhist
         bad, lines = scenhist.replay(r['replay'])
+        print('\n'.join(lines))
+        if bad:
+            print(f'VIOLATION property=C14 replay={path}')
+        return 1 if bad else 0
+    if r['replay'].get('section') == 'ambient':
+        from .. import ambient
+        bad, lines = ambient.replay(r['replay'])
         print('\n'.join(lines))
         if bad:
             print(f'VIOLATION property=C14 replay={path}')
